@@ -164,9 +164,6 @@ func runC13(c *mon.Ctx) {
 		cs.Input([]byte(xml))
 		cs.Nontrivial(cs.Description())
 		fail := func(key, msg string) {
-			if o.AttrCR && (key == "digest-mismatch" || key == "signature-does-not-verify") {
-				key = "attr-cr-outbound" // finding K3: U+000D inside an outbound XML attribute value
-			}
 			cs.Outcome("bad:" + key)
 			cs.Violation(key, "%s", msg)
 		}
